@@ -236,6 +236,9 @@ func (r *WireReader) Range(start, end int) Wire {
 	if start < 0 || end > r.accSz[len(r.wire)] || start > end {
 		return nil
 	}
+	if start == end {
+		return Wire{}
+	}
 	var startSeg, startPos, endSeg, endPos int
 	for i := 0; i < len(r.wire); i++ {
 		if r.accSz[i] <= start && r.accSz[i+1] > start {
